@@ -38,19 +38,58 @@ def rule_print_gate(check):
                     for cn in hir.calls_in(f.body):
                         if prog.resolve_local(cn) is g:
                             outs.append((n, f, cn, g))
-    check.floor(R, "results built by transform_js", len(outs), 2)
-    pvp = Prov(prog)
-    n_empty = 0
+    # one literal fed by a `match` on the status (`let (code, map) = match status { Modified => .., NotModified
+    # => .. }; Ok(RewrittenOutput { code, .. })`) is as many results as the match has arms that yield a value
+    cases = []
     for lit, f_, site, owner in outs:
         flds = {x["name"]: hir.peel(x["e"]) for x in lit["fields"]}
+        split = None
+        for nm in ("code", "source_map", "original_source_map"):
+            l = hir.local_of(flds.get(nm, {})) if owner is f_ else None
+            bnd = f_.bindings().get(l[0]) if l else None
+            if bnd and bnd["origin"][0] == "let" and isinstance(bnd["origin"][1], dict) and hir.peel(bnd["origin"][1]).get("k") == "Match" and not f_.assignments_to(l[0]):
+                m_ = hir.peel(bnd["origin"][1])
+                if (hir.place(m_["scrut"]) or "").endswith(".status") and not knows(f_, site, MOD) and not knows(f_, site, NOT):
+                    split = m_
+        if split is None:
+            cases.append((flds, f_, site, owner, None))
+            continue
+        from ..prov import value_exprs as _vals
+        for arm in split["arms"]:
+            v_ = hir.pat_variant(arm["pat"])
+            vn = str(v_).split("::")[-1]
+            if vn not in ("Modified", "NotModified", "Cancelled") or hir.diverges(arm["body"]):
+                continue
+            vals = [hir.peel(x) for x in _vals(arm["body"])]
+            fl2 = dict(flds)
+            for nm, e_ in flds.items():
+                l = hir.local_of(e_)
+                bnd = f_.bindings().get(l[0]) if l else None
+                if bnd and bnd["origin"][0] == "let" and isinstance(bnd["origin"][1], dict) and hir.peel(bnd["origin"][1]) is split:
+                    proj = bnd["origin"][2] if len(bnd["origin"]) > 2 else ()
+                    proj = proj[0] if proj and isinstance(proj[0], tuple) and proj[0] and isinstance(proj[0][0], tuple) else proj
+                    idx = [int(p_[1]) for p_ in proj if isinstance(p_, tuple) and p_[0] == "tuple"]
+                    if len(vals) == 1 and vals[0].get("k") == "Tup" and idx and idx[0] < len(vals[0]["elems"]):
+                        fl2[nm] = hir.peel(vals[0]["elems"][idx[0]])
+                    elif len(vals) == 1 and not idx:
+                        fl2[nm] = vals[0]
+            cases.append((fl2, f_, arm["body"], owner, BF.atom("is:Status::" + vn)))
+    check.floor(R, "results built by transform_js", len(cases), 2)
+    pvp = Prov(prog)
+    n_empty = 0
+    for flds, f_, site, owner, arm_status in cases:
+        if arm_status is not None:
+            knows_here = lambda goal, a_=arm_status: BF.entails([a_], goal, exhaustive=S.STATUS_EXH)
+        else:
+            knows_here = lambda goal, f2=f_, s2=site: knows(f2, s2, goal)
         code = flds.get("code", {})
         printed = any(r[0] == "call" and r[1].split("::")[-1] == "print" for r, p_ in pvp.origins(owner, code)) or any(c["t"] == "closure" for c in f_.conds_at(site))
         if printed:
-            check.expect(knows(f_, site, MOD), R, R + "/printed-result", hir.loc(site), "the printed result is returned only for Modified", "a printed result is returned on a path where the status is not known to be Modified")
+            check.expect(knows_here(MOD), R, R + "/printed-result", hir.loc(site), "the printed result is returned only for Modified", "a printed result is returned on a path where the status is not known to be Modified")
             continue
         n_empty += 1
         detail = []
-        ok = knows(f_, site, NOT)
+        ok = knows_here(NOT)
         for nm in ("code", "source_map"):
             e = flds.get(nm, {})
             empty = (hir.is_call(e) and hir.callee_name(e) in ("default", "new") and "String" in (e["callee"]["path"] + e.get("ty", ""))) or hir.lit_value(e) == ""
@@ -256,7 +295,7 @@ def rule_metrics_present(check):
     prog = check.prog
     t = prog.fn("rewriter::transform_js")
     lits = [n for g_ in prog.flat(t, 1) for n in hir.walk(g_.body) if n.get("k") == "Struct" and (n["res"].get("path") or "").endswith("RewrittenOutput")]
-    check.floor(R, "RewrittenOutput constructions in transform_js", len(lits), 2)
+    check.floor(R, "RewrittenOutput constructions in transform_js", len(lits), 1)
     for n in lits:
         e = [hir.peel(x["e"]) for x in n["fields"] if x["name"] == "transform_status"][0]
         ok = e.get("k") == "Call" and (hir.peel(e["f"]).get("res", {}).get("ctor_path") or "").split("::")[-1] == "Some"
